@@ -13,8 +13,11 @@ type IndexLoop struct {
 	Loop  *Loop
 	Phi   *ssa.Phi
 	Index ssa.Value // the value the body uses as the current index
-	Start int64     // first value of Index
-	Step  int64
+	Start int64     // first value of Index (when constant)
+	// StartVal is the loop-invariant first value of Index when it is not a
+	// constant (e.g. `for p := idx; p < end; p++`); nil otherwise.
+	StartVal ssa.Value
+	Step     int64
 	Bound ssa.Value // right operand of the `<` test
 	If    *ssa.If   // header test; Succs[0] is the body
 }
@@ -60,8 +63,43 @@ func AsIndexLoop(l *Loop) *IndexLoop {
 				}
 			}
 		}
+		// loop-invariant, non-constant start
+		if initV, fromLatch, ok := phiInitValueAndLatch(phi, l); ok {
+			if add, ok := fromLatch.(*ssa.BinOp); ok && add.Op == token.ADD && add.X == ssa.Value(phi) {
+				if step, ok := ConstInt(add.Y); ok {
+					il.Phi, il.Index, il.StartVal, il.Start, il.Step = phi, phi, initV, -1, step
+					return il
+				}
+			}
+		}
 	}
 	return nil
+}
+
+// phiInitValueAndLatch is phiInitAndLatch for a loop-invariant (not
+// necessarily constant) initial value.
+func phiInitValueAndLatch(phi *ssa.Phi, l *Loop) (init, latch ssa.Value, ok bool) {
+	for i, e := range phi.Edges {
+		pred := phi.Block().Preds[i]
+		if l.Blocks[pred] {
+			if latch != nil && latch != e {
+				return nil, nil, false
+			}
+			latch = e
+		} else {
+			if init != nil && init != e {
+				return nil, nil, false
+			}
+			init = e
+		}
+	}
+	if init == nil || latch == nil {
+		return nil, nil, false
+	}
+	if in, isInstr := init.(ssa.Instruction); isInstr && l.Blocks[in.Block()] {
+		return nil, nil, false
+	}
+	return init, latch, true
 }
 
 // phiInitAndLatch splits the edges of a header phi into the constant coming
